@@ -54,6 +54,8 @@ func execNetworkSimplex(g *graph.DGraph, params graph.Params) {
 		vbalance(g)
 	case 2:
 		p.hbalance(g)
+		// balancing moves whole subtrees and can push nodes above layer zero
+		normalize(g)
 	}
 }
 
